@@ -182,6 +182,7 @@ class DeviceSet(BaseDevice):
     return constraints
 
   def project(self, s):
+    s = s.reshape(self.shape)
     return np.vstack([d.project(s[i[0]:i[0]+i[1], :]) for d, i in zip(self.devices, self.partition)])
 
   def to_str(self, indent=1):
